@@ -261,6 +261,12 @@ def run(repo, rep):
     rep.clause("C16-o", "constraints decide what their report line says: 'new_axis_mask and shrink_axis_mask cannot both be set' (evaluated on a grid of mask pairs); 'the sum of the weights' is taken per output channel over the three other axes of the HWIO volume")
     rep.clause("C16-p", "the generic tensor constraints look at every input of a concatenating operator (CONCATENATION, PACK): operands examined per constraint, resolved through the accessor bodies and the operand index table of the operator type, against the inputs the lowering reads")
     rule_round10(repo, rep)
+    rep.clause("C16-q", "NHWC attribute tuples (strides, dilation, ksize) are unpacked height first, width second wherever a kernel is built from them (the dilated-kernel and stride constraints read that kernel)")
+    rule_nhwc_attr_tuples(repo, rep)
+    rep.clause("C16-r", "a guard that tests an operator's type together with run_on_npu asks both of the same operator: a neighbour is folded into an NPU operator only if the neighbour itself was placed on the NPU")
+    rule_same_operator_guard(repo, rep)
+    rep.clause("C16-s", "a constraint whose report line speaks of 'W and H' / 'both' requires its condition of both axes (comparisons of a height and a width variable with the same value are joined with `and`)")
+    rule_both_axes(repo, rep)
     rule_round9(repo, rep)
     rule_round8(repo, rep)
     _so, _sem = repo.mod("tflite_supported_operators"), repo.mod("tflite_model_semantic")
@@ -1161,3 +1167,124 @@ def rule_round10(repo, rep):
                           "(batch > 1, float32 or unquantised operand 0: placed on the NPU / KeyError instead of CPU placement)")
     if n < 10:
         raise AnalysisError(f"C16-p: only {n} (constraint, operator) pairs examined")
+
+
+def _hw_axis(name):
+    toks = name.lower().split("_")
+    if any(t in ("h", "height", "y") for t in toks):
+        return "H"
+    if any(t in ("w", "width", "x") for t in toks):
+        return "W"
+    return None
+
+
+def rule_nhwc_attr_tuples(repo, rep, rule="C16-q"):
+    """(q) the reader stores strides / dilation / ksize as NHWC 4-tuples (1, h, w, 1). Every unpacking of such an attribute binds position 1
+    to a height-named and position 2 to a width-named variable (the constraints on dilated kernel height / width and stride ranges read the
+    kernel built from these)."""
+    KEYS = ("dilation", "strides", "ksize")
+    n = 0
+    for m in repo.core_modules():
+        for q, fn in m.functions.items():
+            for st in ast.walk(fn):
+                if not (isinstance(st, ast.Assign) and isinstance(st.targets[0], ast.Tuple)):
+                    continue
+                v = st.value
+                lo = 0
+                if isinstance(v, ast.Subscript) and isinstance(v.slice, ast.Slice):
+                    lo = try_fold(v.slice.lower, default=None) if v.slice.lower is not None else 0
+                    v = v.value
+                key = None
+                if isinstance(v, ast.Subscript) and str(norm(v.value)).endswith(".attrs") and isinstance(v.slice, ast.Constant):
+                    key = v.slice.value
+                elif isinstance(v, ast.Call) and isinstance(v.func, ast.Attribute) and v.func.attr == "get" and str(norm(v.func.value)).endswith(".attrs") and v.args and isinstance(v.args[0], ast.Constant):
+                    key = v.args[0].value
+                if key not in KEYS or not isinstance(lo, int):
+                    continue
+                elts = st.targets[0].elts
+                bad = []
+                for i, e in enumerate(elts):
+                    if isinstance(e, ast.Name):
+                        ax = _hw_axis(e.id)
+                        pos = lo + i
+                        if (pos == 1 and ax == "W") or (pos == 2 and ax == "H"):
+                            bad.append(f"position {pos} ({'H' if pos == 1 else 'W'}) bound to `{e.id}`")
+                if any(isinstance(e, ast.Name) and _hw_axis(e.id) for e in elts):
+                    n += 1
+                    rep.check(not bad, rule, f"{m.rel}:{q}", f"`{str(norm(st))[:80]}` follows the NHWC order of attrs['{key}']",
+                              "; ".join(bad) + ": height and width factors are swapped (a 9x3 kernel with dilation_h 8 is judged with dilated height 9 and placed on the NPU)")
+    if n < 3:
+        raise AnalysisError(f"NHWC attribute unpackings: {n} found")
+
+
+def rule_same_operator_guard(repo, rep, rule="C16-r"):
+    """(r) a guard that tests an operator's type together with run_on_npu asks both of the same operator (21 guards in the optimiser, no
+    exception): `pad_op.type != Op.Pad or not op.run_on_npu` tests the placement of the consumer where the producer is about to be folded
+    away - a PAD that failed its own constraints would vanish into the convolution's hardware padding."""
+    n = 0
+    for mn in ("tflite_graph_optimiser", "graph_optimiser_util"):
+        m = repo.mod(mn)
+        for q, fn in m.functions.items():
+            for b in ast.walk(fn):
+                if not isinstance(b, ast.BoolOp):
+                    continue
+                recv_type, recv_npu = set(), set()
+                for v in b.values:
+                    for a in ast.walk(v):
+                        if isinstance(a, ast.Attribute) and a.attr == "run_on_npu":
+                            recv_npu.add(str(norm(a.value)))
+                        if isinstance(a, ast.Attribute) and a.attr == "type" and not str(norm(a.value)).endswith(".activation"):
+                            recv_type.add(str(norm(a.value)))
+                if not recv_type or not recv_npu:
+                    continue
+                n += 1
+                ok = recv_npu <= recv_type
+                rep.check(ok, rule, f"{m.rel}:{q}", f"`{str(norm(b))[:90]}` tests type and placement of the same operator",
+                          f"type of {sorted(recv_type)} but placement of {sorted(recv_npu - recv_type)}: the operator identified by the type test may be on the CPU and is rewritten (folded away) all the same")
+    if n < 15:
+        raise AnalysisError(f"type / run_on_npu guards: {n} found")
+
+
+def rule_both_axes(repo, rep, rule="C16-s"):
+    """(s) a constraint whose report line speaks of 'W and H' requires its condition of both axes: a test that compares a height-named and a
+    width-named variable with the same value joins the two comparisons with `and`."""
+    n = 0
+    for modname, clsname, path in (("tflite_supported_operators", "TFLiteSupportedOperators", SO), ("tflite_model_semantic", "TFLiteSemantic", SEM)):
+        mod = repo.mod(modname)
+        for nm, ds in docstrings(mod, clsname).items():
+            if not ds or not re.search(r"\bW and H\b|\bH and W\b|\bboth\b", ds):
+                continue
+            fn = mod.func(f"{clsname}.{nm}")
+            for b in ast.walk(fn):
+                if not (isinstance(b, ast.BoolOp) and len(b.values) == 2 and all(isinstance(v, ast.Compare) and len(v.ops) == 1 and isinstance(v.ops[0], ast.Eq) for v in b.values)):
+                    continue
+                l, r = b.values
+
+                def axis_of(e):
+                    axes = {_hw_axis(x.id) for x in ast.walk(e) if isinstance(x, ast.Name)} - {None}
+                    return axes.pop() if len(axes) == 1 else None
+
+                if {axis_of(l.left), axis_of(r.left)} != {"H", "W"} or str(norm(l.comparators[0])) != str(norm(r.comparators[0])):
+                    continue
+                # polarity: the test accepts (valid = True) or rejects (valid = False / return False ..)
+                cur = b
+                while cur is not None and not isinstance(cur, (ast.If, ast.Assign, ast.Return)):
+                    cur = mod.parents.get(cur)
+                accepts = None
+                if isinstance(cur, ast.If) and cur.body:
+                    first = str(norm(cur.body[0]))
+                    accepts = True if first == "valid = True" else (False if first == "valid = False" or first.startswith("return (False,") or first.startswith("return False,") else None)
+                elif isinstance(cur, ast.Assign) and str(norm(cur.targets[0])) == "valid":
+                    accepts = True
+                if accepts is None:
+                    continue
+                n += 1
+                if not accepts:
+                    rep.check(isinstance(b.op, ast.Or), rule, f"{path}:{clsname}.{nm}", f"`{str(norm(b))[:80]}` rejects when either axis has the value",
+                              "joined with `and` in a rejecting guard: an operator with the value on one axis only passes it (align_corners with an extent of 1 on one axis: the scaling (OFM - 1) / (IFM - 1) divides by zero)")
+                    continue
+                rep.check(isinstance(b.op, ast.And), rule, f"{path}:{clsname}.{nm}", f"`{str(norm(b))[:80]}` requires the condition of both axes",
+                          f"joined with `or` although the report line says '{[x.strip() for x in ds.splitlines() if re.search('W and H|H and W|both', x)][0][:60]}': an operator with only one axis "
+                          "meeting the condition is accepted")
+    if n < 2:
+        raise AnalysisError(f"both-axes conditions: {n} found")
